@@ -62,11 +62,10 @@ const header = "From CSS Require Import Lib.Base Lib.Cases Model.Comb Model.PCR0
 
 const perShard = 24
 
-const (
-	findD21      = "C03-D21-linear-blocks"
-	findDeadlock = "C03-resultch-deadlock"
-	findDropAll  = "C03-drop-all-not-searched"
-)
+// the open finding of KNOWN_FINDINGS.json.  (C03-D21-linear-blocks and
+// C03-resultch-deadlock are repaired in /repo: what they were is an ordinary
+// failure of the oracle now.)
+const findDropAll = "C03-drop-all-not-searched"
 
 var gomaxprocs = []int{1, 2, 3, 5, 16, 33, 64}
 
@@ -742,7 +741,7 @@ func (h *runner) scenario(sc scenario) {
 			if !rc.reachable {
 				// sound, but outside the configured search space
 				if o.hasReg && isBeyondLinear(ents, o, sc.st) {
-					c.OracleFailKnown(idx, findD21, fmt.Sprintf("GOMAXPROCS=%d: a result with ACM_POLICY_STATUS decremented by >= MaxACMPolicyLinearDistance=%d is reported; the same request gives no result on fewer cores", g, sc.st.MaxACMPolicyLinearDistance), site+": linearSearch.Process", d)
+					c.OracleFail(idx, fmt.Sprintf("GOMAXPROCS=%d: a result with ACM_POLICY_STATUS decremented by >= MaxACMPolicyLinearDistance=%d is reported; the same request gives no result on fewer cores", g, sc.st.MaxACMPolicyLinearDistance), site+": linearSearch.Process", d)
 				} else {
 					c.OracleFail(idx, "a result is reported although the requested value is not reachable inside the configured search space", site, d)
 				}
@@ -1101,7 +1100,7 @@ func (h *runner) linear(limit, g int, reg uint64) {
 	case dup > 0 || missing > 0:
 		c.OracleFail(idx, fmt.Sprintf("linear search: %d decrement(s) below the limit not tried, %d tried more than once", missing, dup), site, d)
 	case beyond > 0:
-		c.OracleFailKnown(idx, findD21, fmt.Sprintf("linear search with limit %d under GOMAXPROCS=%d tries %d decrement(s) >= limit", limit, g, beyond), site, d)
+		c.OracleFail(idx, fmt.Sprintf("linear search with limit %d under GOMAXPROCS=%d tries %d decrement(s) >= limit", limit, g, beyond), site, d)
 	default:
 		c.OracleOK()
 	}
@@ -1141,7 +1140,7 @@ func (h *runner) linearHit(limit, g int, reg uint64, accept []uint64) {
 		c.OracleFail(-1, "linear search returns a register the check did not accept", site, d)
 	case res != nil && !inside:
 		d["returned"] = fmt.Sprintf("0x%x", res.Raw())
-		c.OracleFailKnown(-1, findD21, fmt.Sprintf("linear search with limit %d under GOMAXPROCS=%d returns decrement %d >= limit", limit, g, reg-res.Raw()), site, d)
+		c.OracleFail(-1, fmt.Sprintf("linear search with limit %d under GOMAXPROCS=%d returns decrement %d >= limit", limit, g, reg-res.Raw()), site, d)
 	default:
 		c.OracleOK()
 	}
@@ -1156,23 +1155,6 @@ func (h *runner) probes() {
 	prev := runtime.GOMAXPROCS(0)
 	defer runtime.GOMAXPROCS(prev)
 
-	// D21: limit 2, decrement 2: nothing on 1 core, a result on 4
-	{
-		t := bootLog(reg, 3, true, [][]byte{{1, 2, 3}})
-		r := newRegistry()
-		ents := view(t.CommandLog, alg, r)
-		ds, _ := perturbed(alg, ents, perturbation{loc: 3, acm: acmChange{kind: "dec", dec: 2}}, r)
-		target := replayBytes(alg, 3, ds)
-		st := pcrbruteforcer.DefaultSettingsReproducePCR0()
-		st.MaxACMPolicyLinearDistance = 2
-		runtime.GOMAXPROCS(1)
-		o1 := run(t.CommandLog, alg, target, st, 20*time.Second)
-		runtime.GOMAXPROCS(4)
-		o4 := run(t.CommandLog, alg, target, st, 20*time.Second)
-		runtime.GOMAXPROCS(prev)
-		c.Probe(findD21, o1.kind == "nil" && o4.kind == "some",
-			fmt.Sprintf("MaxACMPolicyLinearDistance=2, ACM_POLICY_STATUS off by 2: GOMAXPROCS=1 -> %s, GOMAXPROCS=4 -> %s", o1.kind, o4.kind))
-	}
 	// drop-all: one measurement, MaxDisabledMeasurements=4, target = start-up value
 	{
 		t := bootLog(reg, 0, false, nil)
@@ -1183,28 +1165,61 @@ func (h *runner) probes() {
 		runtime.GOMAXPROCS(prev)
 		c.Probe(findDropAll, o.kind == "nil", "log = [PCR0_DATA], MaxDisabledMeasurements=4, requested PCR0 = value after TPMInit(0): "+o.kind)
 	}
-	// deadlock: PCR0_DATA + 7 identical measurements, one of them dropped, GOMAXPROCS=5
-	{
+}
+
+// ---------- the witnesses of the two repaired findings, as ordinary scenarios ----------
+
+// MaxACMPolicyLinearDistance = 2 and a register off by 2 (outside "decreased by
+// less than the limit") or by 1 (inside): the verdict must not depend on
+// GOMAXPROCS (before 92fa0d4 four and more cores tried the decrement 2 as well).
+func (h *runner) linearLimitWitness() {
+	const reg = 0x0000000200108681
+	for _, alg := range []tpm.Algorithm{tpm2.AlgSHA1, tpm2.AlgSHA256} {
+		t := bootLog(reg, 3, true, [][]byte{{1, 2, 3}})
+		st := pcrbruteforcer.DefaultSettingsReproducePCR0()
+		st.MaxACMPolicyLinearDistance = 2
+		for _, dec := range []uint64{2, 1} {
+			label := "dec=limit"
+			if dec < 2 {
+				label = "in"
+			}
+			h.scenario(scenario{kind: "e2e-limit-2", log: t.CommandLog, alg: alg, st: st, gs: []int{1, 2, 3, 4, 5, 16, 64},
+				pert:   perturbation{label: label, loc: 3, acm: acmChange{kind: "dec", dec: dec}},
+				source: "boot simulation on fake_intel_firmware.fd (TPMInit(3), PCR0_DATA, 1 Measure step), default settings with MaxACMPolicyLinearDistance=2"})
+		}
+	}
+}
+
+// Many goroutines of one level find an answer at the same time: PCR0_DATA plus
+// n identical measurements, one of them dropped, and a register decrement deep
+// inside the linear range so that every goroutine is busy when the first one
+// succeeds.  The level starts ceil(amount/(amount/GOMAXPROCS)) goroutines and
+// all of them may send a result before wg.Wait() returns (before 1dc507b the
+// channel had GOMAXPROCS+1 slots: 9 goroutines, 7 winners, 6 slots under
+// GOMAXPROCS=5, and the call never returned).
+func (h *runner) manyWinners() {
+	const reg = 0x0000000200108681
+	type cfg struct{ n, g int }
+	cfgs := []cfg{{7, 5}, {7, 5}, {9, 6}, {7, 4}, {5, 3}}
+	for i, cf := range cfgs {
+		alg := tpm.Algorithm(tpm2.AlgSHA1)
+		if i%2 == 1 {
+			alg = tpm2.AlgSHA256
+		}
 		t := bootLog(reg, 3, false, nil)
 		d := hsum(alg, []byte("dup"))
-		for i := 0; i < 7; i++ {
-			t.TPMExtend(ctxBG, 0, alg, d, nil)
+		for j := 0; j < cf.n; j++ {
+			if err := t.TPMExtend(ctxBG, 0, alg, d, nil); err != nil {
+				panic(err)
+			}
 		}
-		r := newRegistry()
-		ents := view(t.CommandLog, alg, r)
 		const dec = 3000
-		ds, _ := perturbed(alg, ents, perturbation{loc: 3, drop: []int{7}, acm: acmChange{kind: "dec", dec: dec}}, r)
-		target := replayBytes(alg, 3, ds)
 		st := pcrbruteforcer.DefaultSettingsReproducePCR0()
 		st.MaxACMPolicyLinearDistance = 2 * dec
-		hung := false
-		for try := 0; try < 3 && !hung; try++ {
-			runtime.GOMAXPROCS(5)
-			o := run(t.CommandLog, alg, target, st, 4*time.Second)
-			runtime.GOMAXPROCS(prev)
-			hung = o.kind == "hang"
-		}
-		c.Probe(findDeadlock, hung, fmt.Sprintf("log = PCR0_DATA + 7 identical measurements, requested PCR0 = one of them dropped and ACM_POLICY_STATUS - %d (limit %d), GOMAXPROCS=5: hang=%v", dec, 2*dec, hung))
+		st.MaxDisabledMeasurements = 2 // levels 0 and 1: keeps the evaluation of the model affordable
+		h.scenario(scenario{kind: "e2e-many-winners", log: t.CommandLog, alg: alg, st: st, gs: []int{cf.g},
+			pert:   perturbation{label: "in", loc: 3, drop: []int{1 + h.pick(cf.n)}, acm: acmChange{kind: "dec", dec: dec}},
+			source: fmt.Sprintf("boot simulation (TPMInit(3), PCR0_DATA) + %d identical appended TPMExtend; one of them dropped and ACM_POLICY_STATUS - %d (MaxACMPolicyLinearDistance %d)", cf.n, dec, 2*dec)})
 	}
 }
 
@@ -1409,10 +1424,12 @@ func main() {
 		}
 	}
 
+	h.linearLimitWitness()
+	h.manyWinners()
 	h.probes()
 
 	c.Finish("e2e: command logs from boot simulations on fake_intel_firmware.fd (PCR0_DATA + 0..6 further measurements, appended TPMExtend, repeated digests, other-bank/other-PCR noise) and hand-made logs (no PCR0_DATA, PCR0_DATA not first / twice / inconsistent digest, aliasing digests); " +
 		"targets by known perturbations inside the search space (locality 0|3, dropped subset, decrement 0..limit-1 or bit flips, disjoint swaps) and just outside (decrement = limit and above, one more dropped/swapped than allowed, locality 1|2|4, 3-cycle, flips beyond the limit, everything dropped) and random bytes; both banks; random settings; each under GOMAXPROCS " + fmt.Sprint(gomaxprocs) +
-		"; e2e-slice-boundary: the dropped subset is the first/last combination of a goroutine's ID slice (k = 1..3 of 4..7 measurements, GOMAXPROCS 2,3,5,16); linear-hook: per-goroutine offered registers for " + fmt.Sprint(len(limits)) + " limits x GOMAXPROCS. A case is non-trivial when the log has >= 2 PCR0 measurements and the target is not random bytes (linear-hook: limit > 1); distinct = distinct Gallina literal")
+		"; e2e-slice-boundary: the dropped subset is the first/last combination of a goroutine's ID slice (k = 1..3 of 4..7 measurements, GOMAXPROCS 2,3,5,16); e2e-limit-2: MaxACMPolicyLinearDistance=2, register off by 2 and by 1 under GOMAXPROCS 1,2,3,4,5,16,64; e2e-many-winners: PCR0_DATA + 5..9 identical measurements, one dropped, decrement 3000 of 6000 (more succeeding goroutines than GOMAXPROCS+1); linear-hook: per-goroutine offered registers for " + fmt.Sprint(len(limits)) + " limits x GOMAXPROCS. A case is non-trivial when the log has >= 2 PCR0 measurements and the target is not random bytes (linear-hook: limit > 1); distinct = distinct Gallina literal")
 	_ = strings.Join
 }
